@@ -4,8 +4,9 @@ use super::*;
 use crate::verif_spec::fmt;
 use crate::verif_spec::src::Src;
 
-fn check_slice_chunk(data: &[u8]) {
+fn check_slice_chunk(data: &[u8]) -> bool {
     let got = parse_chunk(data);
+    let decoded_ok = got.is_ok();
     let mut want: Option<(usize, u32)> = None;
     let mut offs = [0usize; 3];
     if let Some(h) = fmt::slice_head(data) {
@@ -57,22 +58,24 @@ fn check_slice_chunk(data: &[u8]) {
         (Ok(_), None) => assert!(false, "decoder accepted a slice chunk the format rejects"),
         (Err(_), Some(_)) => assert!(false, "decoder rejected a well-formed slice chunk"),
     }
+    decoded_ok
 }
 
 macro_rules! slice_shape {
-    ($hname:ident, $n:expr) => {
+    ($hname:ident, $n:expr, $u:expr, $can_ok:expr) => {
         crate::verif_harness! {
             /// slice::parse_chunk on every payload of exactly $n bytes (flags, key count, all values symbolic).
             #[kani::stub(std::fmt::format, crate::verif_spec::stubs::format_stub)]
-            #[kani::unwind(8)]
+            #[kani::unwind($u)]
             fn $hname(s) {
                 let d: [u8; $n] = s.bytes();
-                check_slice_chunk(&d);
-                crate::vcover!(parse_chunk(&d).map_or(false, |t| t.keys.len() >= 1), "a key decodes");
+                let ok = check_slice_chunk(&d);
+                crate::vcover!(ok || !$can_ok, "a well-formed payload of this size decodes");
+                crate::vcover!(!ok, "a malformed payload of this size is rejected");
             }
         }
     };
 }
-slice_shape!(k_slice_chunk_14, 14); // no keys, empty name
-slice_shape!(k_slice_chunk_34, 34); // one plain key
-slice_shape!(k_slice_chunk_58, 58); // one key with 9-slice + pivot, or with one of them, or two...
+slice_shape!(k_slice_chunk_14, 14, 3, true); // no keys, empty name
+slice_shape!(k_slice_chunk_34, 34, 23, true); // one plain key
+slice_shape!(k_slice_chunk_58, 58, 47, true); // one key with 9-slice + pivot, or with one of them, or two...
